@@ -918,6 +918,11 @@ func main() {
 			if v.Label == "data-race" || strings.HasPrefix(v.Label, "nondet:") {
 				tries = 3
 			}
+			if rep.Cfg.Sched != "" && tries < 10 {
+				// a counterexample of a harness with goroutines may need the schedule the engine found; natively
+				// the schedule cannot be forced, so the replay is repeated (it is reported only if a run fails)
+				tries = 10
+			}
 			var outTxt string
 			for t := 0; t < tries && !confirmed; t++ {
 				res, out, err := nativeReplay(specFor(&spec, rep.Cfg.ShrinkSet), rf, path, workDir)
